@@ -76,12 +76,15 @@ def main(tier, replay=None):
     except BuildError as e:
         chk.violation('build', 'working tree does not build: ' + str(e)[:500], {'error': str(e)}, no_input=True)
         return chk.finish()
+    import c03_simd
+    c03_simd.run(chk, snap, drv)
     ob = check_obligations('C03')
     proof_coverage(chk, ob, 'make -f Makefile.coq -k Props/Properties_C03.vo (coqc 8.16.1, full .vo) + Print Assumptions',
                    ['Coq 8.16.1 kernel incl. vm_compute', 'MathComp 1.15 (ssreflect, algebra: poly root counting, matrices)',
                     'harness/gen/tables.py', 'extraction (ExtrOcamlBasic only) + ocaml/driver.ml', 'harness/c/raid_drv.c',
                     'harness/py/gfref.py (independent reference: the harness knows the original stripe)',
-                    'hand models of raid/raid.c, raid/int.c rec*, raid/check.c, raid/combo.h, raid/helper.c (RecModel.v); SIMD decoders tied by unit correspondence only'])
+                    'hand models of raid/raid.c, raid/int.c rec*, raid/check.c, raid/combo.h, raid/helper.c (RecModel.v)',
+                    'harness/gen/x86asm_rec.py (translator of the six SSSE3/AVX2 decoders of raid/x86.c into Gen/X86RecProgs.v) + reflective checker Simd/RecCheck.v'])
     rng = chk.rng
     quick = tier == 'quick'
     cases = []   # dict(kind, line(for C), mline(for model or None), expect(oracle) , desc)
@@ -293,6 +296,6 @@ def main(tier, replay=None):
     if ob['failed'] and not chk.violations:
         chk.violation('obligation', 'proof obligation of C03 no longer checks: %s' % ob['failed'][0],
                       {'theorem_file': 'coq/Props/Properties_C03.v', 'failed': ob['failed'], 'log_tail': ob['log'][-1500:]}, no_input=True)
-    chk.assumptions += ['SIMD decoders (rec*_ssse3, rec*_avx2) are tied to the specification by unit correspondence, not by a theorem about the asm',
+    chk.assumptions += ['SIMD decoders (rec*_ssse3, rec*_avx2): the asm loops are translated from raid/x86.c on every run and proved (C03_rec_simd_correct, C03_simd_decoders_correct); the C prologue of each decoder is recognised textually by the translator, any deviation is an unsupported-translation obligation failure',
                         'pointer permutation of raid_delta_gen is modelled at the value level; aliasing/frame are checked by canaries, pointer-vector and zero-block comparison in the driver']
     return chk.finish()
